@@ -41,6 +41,16 @@ class WildHolder:  # a single-valued wildcard: the parser stores text + children
 
 
 @dataclass
+class TokensHolder:
+    # a non-repeating compound field with a tokens choice (what the generator emits for a choice of xs:int | xs:NMTOKENS)
+    num_or_toks: Optional[Union[int, List[str]]] = field(
+        default=None,
+        metadata={"type": "Elements", "choices": ({"name": "num", "type": int}, {"name": "toks", "type": List[str], "default_factory": list, "tokens": True})},
+    )
+    opt_toks: Optional[List[int]] = field(default=None, metadata={"type": "Element", "tokens": True})
+
+
+@dataclass
 class WildGuest:  # a model that is no field type of WildHolder: inside a wildcard it is found by its (unique) property names
     vf_c04_guest_code: Optional[int] = field(default=None, metadata={"type": "Element"})
     vf_c04_guest_note: Optional[str] = field(default=None, metadata={"type": "Element"})
@@ -55,6 +65,9 @@ def instances():
     from xsdata.formats.dataclass.models.generics import AnyElement
 
     return [
+        TokensHolder(num_or_toks=["x", "y"]),
+        TokensHolder(num_or_toks=7, opt_toks=[1, 2]),
+        TokensHolder(),
         WildHolder(any_element=WildGuest(vf_c04_guest_code=3, vf_c04_guest_note="n")),
         WildList(items=[WildGuest(vf_c04_guest_code=1, vf_c04_guest_note="a"), AnyElement(qname="g", text="t"), WildGuest(vf_c04_guest_code=2, vf_c04_guest_note="b")]),
         WildHolder(any_element=AnyElement(qname=None, text="text", children=[AnyElement(qname="foo", text="")])),
